@@ -34,6 +34,11 @@ type paCase struct {
 	Post paState `json:"post"`
 }
 
+const (
+	paXName = "x~1y"
+	paX     = "/x~01y"
+)
+
 func paPtr(i int) string {
 	if i < 0 {
 		return "/arr/-"
@@ -104,11 +109,11 @@ func patcharrayReplay(args []string) {
 			case "remove":
 				ops = append(ops, map[string]interface{}{"op": "remove", "path": paPtr(o.I)})
 			case "copy_x":
-				ops = append(ops, map[string]interface{}{"op": "copy", "from": "/x", "path": paPtr(o.I)})
+				ops = append(ops, map[string]interface{}{"op": "copy", "from": paX, "path": paPtr(o.I)})
 			case "move":
 				ops = append(ops, map[string]interface{}{"op": "move", "from": paPtr(o.I), "path": paPtr(o.J)})
 			case "copy_to_x":
-				ops = append(ops, map[string]interface{}{"op": "copy", "from": paPtr(o.I), "path": "/x"})
+				ops = append(ops, map[string]interface{}{"op": "copy", "from": paPtr(o.I), "path": paX})
 			default:
 				fatalf("op %q", o.K)
 			}
@@ -119,9 +124,11 @@ func patcharrayReplay(args []string) {
 			arr = append(arr, paElem(v))
 		}
 
-		doc := document.Document{"arr": arr, "other": map[string]interface{}{"a": 1.0}}
+		// the scalar member is called "x~1y" (JSON pointer /x~01y: "~0" stands for "~", then no "~1" is left to
+		// decode); a member "x/y" that the wrong decoding order would address is there as a decoy
+		doc := document.Document{"arr": arr, "other": map[string]interface{}{"a": 1.0}, "x/y": "decoy"}
 		if c.X != 0 {
-			doc["x"] = paElem(c.X)
+			doc[paXName] = paElem(c.X)
 		}
 
 		raw, _ := json.Marshal(map[string]interface{}{"action": "ietf-json-patch", "patches": ops})
@@ -129,6 +136,18 @@ func patcharrayReplay(args []string) {
 		var p patch.Patch
 
 		_ = json.Unmarshal(raw, &p)
+
+		// the same operations as a LIST of patches with one operation each (a patch list is a left fold too;
+		// two equal patches in a row are two patches)
+		var single []patch.Patch
+
+		for _, o := range ops {
+			var sp patch.Patch
+
+			sraw, _ := json.Marshal(map[string]interface{}{"action": "ietf-json-patch", "patches": []interface{}{o}})
+			_ = json.Unmarshal(sraw, &sp)
+			single = append(single, sp)
+		}
 
 		key := func(kind string) string {
 			return fmt.Sprintf("%s:array:%s:len=%d:x=%v", kind, shape, len(c.Arr), c.X != 0)
@@ -157,6 +176,13 @@ func patcharrayReplay(args []string) {
 			}()
 
 			out, err = composer.ApplyPatches(doc, []patch.Patch{p})
+
+			if len(single) > 1 {
+				out2, err2 := composer.ApplyPatches(doc, single)
+				if (err == nil) != (err2 == nil) || digestJSON(out) != digestJSON(out2) {
+					panicked = fmt.Sprintf("one patch with the operations %v and a list of patches with one operation each disagree: %v / %v", ops, err, err2)
+				}
+			}
 		}()
 
 		col.sample(map[string]interface{}{"array": c.Arr, "x": c.X, "operations": ops, "applies": err == nil})
@@ -177,7 +203,7 @@ func patcharrayReplay(args []string) {
 				got.Arr = append(got.Arr, paValue(e))
 			}
 
-			if xv, has := out["x"]; has {
+			if xv, has := out[paXName]; has {
 				got.X = paValue(xv)
 			}
 
@@ -186,7 +212,7 @@ func patcharrayReplay(args []string) {
 				want.Arr = []int{}
 			}
 
-			if !reflect.DeepEqual(got, want) || !reflect.DeepEqual(out["other"], doc["other"]) {
+			if !reflect.DeepEqual(got, want) || !reflect.DeepEqual(out["other"], doc["other"]) || out["x/y"] != "decoy" || len(out) != len(doc)+map[bool]int{true: 1, false: 0}[c.X == 0 && want.X != 0] {
 				col.report(mismatch{Kind: "document", Key: key("document"), Case: c, Expected: want, Actual: got, Concrete: conc, Replay: rp})
 			}
 		}
